@@ -97,6 +97,8 @@ class Touchy:
         self.v = v
 
     def __reduce__(self):
+        if Touchy.fail_reduce == "base":
+            raise Interrupt("injected interruption while pickling")
         if Touchy.fail_reduce:
             raise pickle.PicklingError("injected pickling fault")
         return (_make_touchy, (self.v,))
@@ -108,7 +110,13 @@ class Touchy:
         return "Touchy(%r)" % (self.v,)
 
 
+class Interrupt(BaseException):
+    """stands for KeyboardInterrupt / SystemExit arriving in the middle of a save or load"""
+
+
 def _make_touchy(v):
+    if Touchy.fail_setstate == "base":
+        raise Interrupt("injected interruption while unpickling")
     if Touchy.fail_setstate:
         raise pickle.UnpicklingError("injected unpickling fault")
     return Touchy(v)
@@ -323,7 +331,7 @@ def _run(case, out, root):
     elif mode == "pickle_save":
         ver += 1
         stamp(ver)
-        Touchy.fail_reduce = True
+        Touchy.fail_reduce = "base" if case["fractions"][0] % 2 else True
         _, exc, _, _ = save()
         Touchy.fail_reduce = False
         out.count("faulted_saves")
@@ -374,7 +382,8 @@ def _run(case, out, root):
                     return out.fail("load-residue", "fault at event %d/%d %r of a load (%s): %s" % (
                         k, n, fired, "raised %r" % (exc,) if exc is not None else "completed", "; ".join(bad)), None, k=k)
         elif mode == "pickle_load":
-            Touchy.fail_setstate = True
+            # (an ordinary exception, or one that does not derive from Exception - an interruption)
+            Touchy.fail_setstate = "base" if case["fractions"][0] % 2 else True
             res, exc, _, _ = INJECTOR.run(work, load)
             Touchy.fail_setstate = False
             out.count("faulted_loads")
